@@ -109,11 +109,14 @@ pub struct Collector {
     start: std::time::Instant,
 }
 
-/// start (ms since the epoch) of the execution the worker is in (refreshed by every `catch`), 0 between cases
+/// 0 between cases; otherwise a beat counter that every claimed case and every execution
+/// (`catch`) advances. The watchdog counts its own 250 ms ticks during which the counter stood
+/// still - no clock is read, so a stepped wall clock or a paused VM cannot trip it.
 static BUSY_SINCE_MS: std::sync::atomic::AtomicU64 = std::sync::atomic::AtomicU64::new(0);
+static BEAT: std::sync::atomic::AtomicU64 = std::sync::atomic::AtomicU64::new(1);
 
 fn now_ms() -> u64 {
-    std::time::SystemTime::now().duration_since(std::time::UNIX_EPOCH).map(|d| d.as_millis() as u64).unwrap_or(1)
+    BEAT.fetch_add(1, std::sync::atomic::Ordering::Relaxed) + 1
 }
 
 /// exit status of a worker that its own watchdog stopped because one case did not finish
@@ -126,11 +129,18 @@ fn spawn_watchdog(limit_s: u64) {
     // The thread's start-up allocates and frees; allocation accounting (C09, C10, C19) must not see
     // that, so the caller waits until the thread is inside its loop, which never allocates.
     static READY: std::sync::atomic::AtomicBool = std::sync::atomic::AtomicBool::new(false);
+    let (mut last_seen, mut stale_ticks) = (0u64, 0u64);
     std::thread::spawn(move || loop {
         READY.store(true, std::sync::atomic::Ordering::SeqCst);
         std::thread::sleep(std::time::Duration::from_millis(250));
         let since = BUSY_SINCE_MS.load(std::sync::atomic::Ordering::SeqCst);
-        if since != 0 && now_ms().saturating_sub(since) > limit_s * 1000 {
+        if since != 0 && since == last_seen {
+            stale_ticks += 1;
+        } else {
+            stale_ticks = 0;
+            last_seen = since;
+        }
+        if stale_ticks * 250 > limit_s * 1000 {
             eprintln!("WATCHDOG: the announced case has been running for more than {} s", limit_s);
             std::process::exit(HANG_EXIT);
         }
